@@ -184,6 +184,27 @@ func (env *Env) ident(name string) SV {
 				return SV{T: env.x.load(env.st, a), Ty: derefType(fv.Type())}
 			}
 		}
+		// name#k: the k-th local of that name in source order (for shadowed names)
+		if i := strings.Index(name, "#"); i > 0 {
+			if k, err := strconv.Atoi(name[i+1:]); err == nil {
+				base := name[:i]
+				n := 0
+				for _, b := range env.fn.Blocks {
+					for _, in := range b.Instrs {
+						if a, ok := in.(*ssa.Alloc); ok && a.Comment == base {
+							n++
+							if n == k {
+								if v, ok := env.st.cells[a]; ok {
+									return SV{T: v, Ty: derefType(a.Type())}
+								}
+								return env.fail("local %s is not live on this path", name)
+							}
+						}
+					}
+				}
+				return env.fail("no local %s", name)
+			}
+		}
 		// named local: the most recently written cell with that source name
 		var best *ssa.Alloc
 		bestSeq := -1
@@ -503,6 +524,21 @@ func (env *Env) call(e *Expr) SV {
 			return SV{T: x.term(st, pv, x.paramType(e.Args[0].Name)), Ty: x.paramType(e.Args[0].Name)}
 		}
 		return env.fail("no parameter %s", e.Args[0].Name)
+	case "global":
+		// global("pkg.Name"): the current value of a package-level variable
+		if len(e.Args) != 1 || e.Args[0].Kind != "str" {
+			return env.fail("global(\"pkg.Name\")")
+		}
+		for _, pk := range x.P.Prog.AllPackages() {
+			for _, m := range pk.Members {
+				if g, ok := m.(*ssa.Global); ok && g.String() == e.Args[0].Lit {
+					t := derefType(g.Type())
+					k := regHeap("G$"+smtName(g.String()), sortOfStatic(t))
+					return SV{T: st.heapArr(k, heapSorts[k]), Ty: t}
+				}
+			}
+		}
+		return env.fail("unknown global %s", e.Args[0].Lit)
 	case "deref":
 		// deref(p): the value a pointer refers to
 		a := arg(0)
@@ -682,7 +718,9 @@ func (env *Env) call(e *Expr) SV {
 			}
 		}
 		if snap == nil {
-			return env.fail("%s(%d, ...): loop not entered on this path", e.Name, n)
+			// the loop was not entered on this path: an unknown value (clauses using it must be
+			// guarded by a condition that implies the loop was entered)
+			return SV{T: x.freshVar("noloop", SInt), Ty: it}
 		}
 		o := *env
 		o.st = snap
